@@ -23,9 +23,9 @@ type Subtable struct {
 	data []byte
 
 	// format 4
-	SegCount                              int
-	SearchRange, EntrySelector, RangeShift uint16
-	ReservedPad                           uint16
+	SegCount                                   int
+	SearchRange, EntrySelector, RangeShift     uint16
+	ReservedPad                                uint16
 	EndCode, StartCode, IDDelta, IDRangeOffset []uint16
 
 	// format 6
